@@ -81,6 +81,27 @@ func runDual(oc *fw.Outcome, cc ccase) {
 				fmt.Fprintf(&sb, "if (%s !~ \"%s\") { log \"%d|!~|ab|1\"; } else { log \"%d|!~|ab|0\"; }\n", va, pat, k, k)
 			}
 		}
+		// mixed numeric types: the documentation does not fix the VALUE of such a comparison, the order laws must hold anyway
+		type mpair struct{ lt, rt, a, b string }
+		var mpairs []mpair
+		for k := 0; k < 6; k++ {
+			combos := [][2]string{{"FLOAT", "RTIME"}, {"RTIME", "FLOAT"}, {"INTEGER", "RTIME"}, {"RTIME", "INTEGER"}, {"FLOAT", "INTEGER"}}
+			c := combos[r.Intn(len(combos))]
+			a, b := dualVals[c[0]][r.Intn(len(dualVals[c[0]]))], dualVals[c[1]][r.Intn(len(dualVals[c[1]]))]
+			if strings.HasPrefix(a, "9223372036854775807") || strings.HasPrefix(b, "9223372036854775807") || strings.HasPrefix(a, "-9223372036854775807") || strings.HasPrefix(b, "-9223372036854775807") {
+				a, b = dualVals[c[0]][1], dualVals[c[1]][1]
+			}
+			mpairs = append(mpairs, mpair{c[0], c[1], a, b})
+			va, vb := "var.a_"+c[0][:1], "var.b_"+c[1][:1]
+			fmt.Fprintf(&sb, "set %s = %s;\nset %s = %s;\n", va, a, vb, b)
+			for _, op := range []string{"<", ">", "<=", ">="} {
+				fmt.Fprintf(&sb, "if (%s %s %s) { log \"x%d|%s|ab|1\"; } else { log \"x%d|%s|ab|0\"; }\n", va, op, vb, k, op, k, op)
+				if !(c[0] == "FLOAT" && c[1] == "INTEGER") {
+					// the reverse order is linter-accepted too (INTEGER < FLOAT is not)
+					fmt.Fprintf(&sb, "if (%s %s %s) { log \"x%d|%s|ba|1\"; } else { log \"x%d|%s|ba|0\"; }\n", vb, op, va, k, op, k, op)
+				}
+			}
+		}
 		sb.WriteString("}\n")
 		src := sb.String()
 		logs, status := runText(oc, mainVCL, src)
@@ -142,6 +163,37 @@ func runDual(oc *fw.Outcome, cc ccase) {
 				nm, ok2 := g("!~", "ab")
 				law("(a !~ p) = not (a ~ p)", nm, !m, ok2, ok1)
 			}
+		}
+		for k, mp := range mpairs {
+			g := func(op, form string) (bool, bool) {
+				v, ok := got[fmt.Sprintf("x%d|%s|%s", k, op, form)]
+				return v, ok
+			}
+			typ := mp.lt + "-" + mp.rt
+			law := func(name string, x, y bool, okx, oky bool) {
+				if !okx || !oky {
+					return
+				}
+				oc.Tag("law:" + name + "/" + typ)
+				if x != y {
+					oc.Violate("dual:"+name+"/"+typ, fmt.Sprintf("with a = %s (%s) and b = %s (%s): %s does not hold", mp.a, mp.lt, mp.b, mp.rt, name),
+						map[string]any{"sub": clip(src, 5000), "a": mp.a, "b": mp.b})
+				}
+			}
+			lt, ok1 := g("<", "ab")
+			gt, ok2 := g(">", "ab")
+			le, ok3 := g("<=", "ab")
+			ge, ok4 := g(">=", "ab")
+			law("(a <= b) = not (a > b)", le, !gt, ok3, ok2)
+			law("(a >= b) = not (a < b)", ge, !lt, ok4, ok1)
+			gtba, ok5 := g(">", "ba")
+			ltba, ok6 := g("<", "ba")
+			geba, ok7 := g(">=", "ba")
+			leba, ok8 := g("<=", "ba")
+			law("(a < b) = (b > a)", lt, gtba, ok1, ok5)
+			law("(a > b) = (b < a)", gt, ltba, ok2, ok6)
+			law("(a <= b) = (b >= a)", le, geba, ok3, ok7)
+			law("(a >= b) = (b <= a)", ge, leba, ok4, ok8)
 		}
 		oc.NonTrivialS(src)
 	}
